@@ -242,21 +242,49 @@ func (h engHook) Func(ctx hooking.HookCtx) {
 	}
 }
 
-// Build assembles the stack.
+// Build assembles the stack on an engine and registrar of its own.
 func Build(c *Cfg) *World {
 	timing.ResetIDGenerator()
 	timing.UseSequentialIDGenerator()
 
+	return BuildOn(nil, c, nil)
+}
+
+// ReqMaker builds requester i of a stack on a foreign registrar (a real
+// simulation.Simulation): it returns the requester's port, which must be named
+// "Req<i>.Out", already created through w.NewPort.
+type ReqMaker func(i int, w *World, dst messaging.RemotePort) messaging.Port
+
+// NewPort creates and registers a port of comp.
+func (w *World) NewPort(comp messaging.Component, name string, buf int) messaging.Port {
+	return w.port(comp, name, buf)
+}
+
+// BuildOn assembles the stack on the given registrar (nil: a private engine and
+// registrar). With makeReq the requesters are supplied by the caller (checkpointable
+// ones); the ID generator is then left to the caller as well.
+func BuildOn(reg modeling.Registrar, c *Cfg, makeReq ReqMaker) *World {
 	w := &World{
-		C: c, Eng: timing.NewSerialEngine(), Ports: map[string]messaging.Port{}, Ctrl: map[string]messaging.Port{},
+		C: c, Ports: map[string]messaging.Port{}, Ctrl: map[string]messaging.Port{},
 		TopOf: map[string]messaging.Port{}, Probes: map[string]int{}, Faults: map[string]int{}, mons: map[string]*topMon{},
 		table: map[[2]uint64]vm.Page{}, stale: map[[2]uint64]map[uint64]bool{}, allocd: map[[2]uint64]vm.Page{},
 	}
-	w.Reg = &registrar{eng: w.Eng}
+
+	ptb := vm.MakePageTableBuilder().WithLog2PageSize(c.Log2Page)
+
+	if reg == nil {
+		w.Eng = timing.NewSerialEngine()
+		w.Reg = &registrar{eng: w.Eng}
+	} else {
+		w.Eng = reg.GetEngine().(*timing.SerialEngine)
+		w.Reg = reg
+		ptb = ptb.WithSimulation(reg)
+	}
+
 	conn := directconnection.MakeBuilder().WithRegistrar(w.Reg).Build("Conn")
 	ps := w.pageSize()
 
-	w.PT = vm.MakePageTableBuilder().WithLog2PageSize(c.Log2Page).Build("PageTable")
+	w.PT = ptb.Build("PageTable")
 
 	for _, p := range c.Pages {
 		pg := vm.Page{PID: vm.PID(p.PID), VAddr: p.VPage * ps, PAddr: p.PPage * ps, PageSize: ps, Valid: !p.Invalid, DeviceID: p.Device, Unified: true}
@@ -420,6 +448,11 @@ func Build(c *Cfg) *World {
 	}
 
 	for i := range c.Reqs {
+		if makeReq != nil {
+			conn.PlugIn(makeReq(i, w, reqDst))
+			continue
+		}
+
 		r := &requester{idx: i, w: w, cfg: &c.Reqs[i], name: fmt.Sprintf("Req%d", i), dst: reqDst, out: map[uint64]outReq{}}
 		r.tc = modeling.NewTickingComponent(r.name, w.Eng, 1*timing.GHz, r)
 		r.tc.DeclarePort("Out")
